@@ -27,7 +27,7 @@ struct Shared {
     volatile int next_unit; volatile int nvio; VioSlot vio[128]; WorkerSlot ws[64]; volatile int stop; volatile uint64_t divergences; volatile int planner_pos;
     char samples[6][1500]; volatile int nsamples;
 };
-static Shared* SH; static SharedSet STATES, OUTCOMES; static ScStat* SCST;
+static Shared* SH; static SharedSet STATES, OUTCOMES; static ScStat* SCST; static volatile uint64_t* REACT;   // per scenario: hash of the first reaction signature (C19 chunking independence)
 
 static void record_violation(int scn, const Vio& v, const std::vector<ChoiceRec>& ch) {
     for (int i = 0; i < SH->nvio && i < 128; ++i) if (!strncmp(SH->vio[i].sig, v.sig.c_str(), 159)) { __sync_fetch_and_add(&SH->vio[i].count, 1); return; }
@@ -56,6 +56,13 @@ static bool run_one(int scn, const std::vector<int>& prefix, Exec& out, bool sam
     for (auto& c : w.choices) STATES.insert(c.digest);
     STATES.insert(w.state_digest() ^ 0x5bd1e995u);      // the final state of every execution counts as a visited state too
     OUTCOMES.insert(w.outcome_digest() ^ (uint64_t(scn) << 56));
+    if ((SCN[scn].monitors & M_C19) && !w.capped) {
+        // all executions of a hostile-broker scenario differ only in how the same bytes are split into reads:
+        // the client's reaction (packets written, handler results) must not depend on that
+        uint64_t h = std::hash<std::string>()(w.reaction_signature()) | 1;
+        uint64_t prev = __sync_val_compare_and_swap(&REACT[scn], 0, h);
+        if (prev != 0 && prev != h) w.vios.push_back({"C19:chunking-dependent:" + SCN[scn].family(), "the same broker bytes split differently into reads produced a different client reaction: " + w.reaction_signature().substr(0, 200)});
+    }
     if (!w.vios.empty()) __sync_fetch_and_add(&st.vio_execs, 1);
     for (auto& v : w.vios) record_violation(scn, v, w.choices);
     out.pts.clear(); for (auto& c : w.choices) out.pts.emplace_back(c.n, c.dev);
@@ -116,6 +123,7 @@ int main(int argc, char** argv) {
     if (SCN.empty()) { fprintf(stderr, "simnet: no scenarios (or too many) for set %s\n", set.c_str()); return 2; }
     for (auto& s : SCN) if (s.D > dcap) s.D = dcap;
     SH = (Shared*)mmap(nullptr, sizeof(Shared), PROT_READ | PROT_WRITE, MAP_SHARED | MAP_ANONYMOUS, -1, 0);
+    REACT = (volatile uint64_t*)mmap(nullptr, 8 * (SCN.size() + 1), PROT_READ | PROT_WRITE, MAP_SHARED | MAP_ANONYMOUS, -1, 0);
     SCST = (ScStat*)mmap(nullptr, sizeof(ScStat) * (SCN.size() + 1), PROT_READ | PROT_WRITE, MAP_SHARED | MAP_ANONYMOUS, -1, 0);
     STATES.init(tier ? (1u << 26) : (1u << 23)); OUTCOMES.init(tier ? (1u << 24) : (1u << 21));
     double t0 = wall_now(); g_deadline = t0 + budget;
